@@ -367,11 +367,12 @@ func runC04(cx *CheckCtx) {
 			// writes of id-keyed families outside their owners
 			if s.Effect == "put" {
 				fam := keyFamily(s.Args[1])
-				owner := map[string][]string{"x": {"addContainer", "_deploy"}, "o": {"addContainer", "_deploy"}, "d": {"removeContainer"}, "eACL": {"SetEACL"}, "nnsHasAlias": {"PutNamed"}, "m": {"PutMeta"}}
+				// by entry point: which ABI methods may reach a write of the family (confirmed by reading)
+				owner := map[string][]string{"x": {"Put", "PutNamed", "PutMeta", "_deploy"}, "o": {"Put", "PutNamed", "PutMeta", "_deploy"}, "d": {"Delete"}, "eACL": {"SetEACL"}, "nnsHasAlias": {"Put", "PutNamed", "PutMeta"}, "m": {"PutMeta"}}
 				if own, ok := owner[fam]; ok {
 					in := false
 					for _, f := range own {
-						if s.Ctx.inFunc(cnrPkg + "." + f) {
+						if m.GoName == f {
 							in = true
 						}
 					}
@@ -717,7 +718,9 @@ func runC14(cx *CheckCtx) {
 		} else {
 			meta := paramTerm(tb, m, "metaInformation")
 			cidT := vcall.Args[0]
-			fromMeta := cidT.contains(func(x *Term) bool { return isCall(x, "native/std.Deserialize") && len(x.Args) == 1 && x.Args[0] == meta }) &&
+			fromMeta := cidT.contains(func(x *Term) bool {
+				return isCall(x, "native/std.Deserialize") && len(x.Args) == 1 && x.Args[0] == meta
+			}) &&
 				cidT.contains(func(x *Term) bool { s, ok := x.BytesConst(); return ok && s == "cid" })
 			cx.decide(fromMeta && vcall.Args[1] == meta && vcall.Args[2] == paramTerm(tb, m, "sigs"), "submit", "container.SubmitObjectPut/args",
 				"verifies (cid read from the meta map, the meta bytes, the submitted signatures)", "the signatures are verified for "+termList(vcall.Args)+", not for the submitted meta information and the container it names", vcall.Where(w))
@@ -994,7 +997,9 @@ func isEmptySlice(v ssa.Value) bool {
 		return x.Value == nil
 	case *ssa.Slice:
 		if al, ok := x.X.(*ssa.Alloc); ok {
-			if at, ok := al.Type().Underlying().(interface{ Elem() interface{ Underlying() interface{} } }); ok {
+			if at, ok := al.Type().Underlying().(interface {
+				Elem() interface{ Underlying() interface{} }
+			}); ok {
 				_ = at
 			}
 			return strings.Contains(al.Type().String(), "[0]")
